@@ -68,7 +68,7 @@ def textPosit (lhs rhs : List String) : Except String LineResult := do
   | _, _ => throw "arity"
 
 
-def btWidth (s : String) : Option Nat :=
+def textBtWidth (s : String) : Option Nat :=
   match s with
   | "u8" => some 8
   | "u16" => some 16
@@ -172,7 +172,7 @@ def textInteger (lhs rhs : List String) : Except String LineResult := do
   match lhs, rhs with
   | [ns, bts, op, arg], [out] =>
     let some n := parseNat ns | throw "nbits"
-    let some w := btWidth bts | throw "bt"
+    let some w := textBtWidth bts | throw "bt"
     let k := digitsInBlock10 w
     match op with
     | "dec" =>
@@ -238,7 +238,7 @@ def parseHexList : List String → Option (List Nat)
 def textEint (lhs rhs : List String) : Except String LineResult := do
   match lhs, rhs with
   | bts :: "dec" :: sg :: limbToks, [out] =>
-    let some w := btWidth bts | throw "bt"
+    let some w := textBtWidth bts | throw "bt"
     let some limbs := parseHexList limbToks | throw "limbs"
     let neg := sg == "-"
     let m := eintOstream w neg limbs
